@@ -9,15 +9,21 @@ Definition documented_types : list gtype := [Buf; And; Or; Xor; Not; Nand; Nor; 
 Definition no_fanin_types : list gtype := [Input; C0; C1; CX; BbOut].     (* inputs, constants, blackbox outputs *)
 Definition single_fanin_types : list gtype := [Buf; Not; BbIn].
 
+(* the fan-out clauses; a `match` so that the oracle computes fan-outs of blackbox pins only *)
+Definition fanout_ok (c : circuit) (n : string) (t : gtype) : Prop :=
+  match t with
+  | BbIn => fanout c n = ∅
+  | BbOut => size (fanout c n) ≤ 1 ∧ set_Forall (λ m, ty c m = Some Buf) (fanout c n)
+  | _ => True end.
+Global Instance fanout_ok_dec c n t : Decision (fanout_ok c n t). Proof. destruct t; simpl; apply _. Defined.
 (* one node of the graph; fan-out is derived from the fan-in sets of the other nodes *)
 Definition node_ok (c : circuit) (n : string) (i : ninfo) : Prop :=
   n_ty i ∈ documented_types ∧
   (n_ty i ∈ no_fanin_types → n_fi i = ∅) ∧
   (n_ty i ∈ single_fanin_types → size (n_fi i) ≤ 1) ∧
-  (n_ty i = BbIn → fanout c n = ∅) ∧
-  (n_ty i = BbOut → size (fanout c n) ≤ 1 ∧ set_Forall (λ m, ty c m = Some Buf) (fanout c n)).
+  fanout_ok c n (n_ty i).
 (* every edge starts at a node of the graph (networkx guarantees it; the model has to) *)
-Definition closed' (c : circuit) : Prop := map_Forall (λ _ i, n_fi i ⊆ dom c) c.
+Definition closed' (c : circuit) : Prop := map_Forall (λ _ i, set_Forall (λ f, is_Some (c !! f)) (n_fi i)) c.
 Definition wired (c : circuit) : Prop := closed' c ∧ map_Forall (node_ok c) c.
 Global Instance node_ok_dec c n i : Decision (node_ok c n i). Proof. unfold node_ok. apply _. Defined.
 Global Instance wired_dec c : Decision (wired c). Proof. unfold wired, closed'. apply _. Defined.
